@@ -379,7 +379,7 @@ Definition own_step (pinned : bool) (st : state) (c : nat) (cm : cmd) (e : event
   end.
 
 Definition probe_live (st : state) (n : str) : bool :=
-  existsb (fun p => t_probing (snd p) &&
+  existsb (fun p => tgt_probing st (fst p) &&
                     match nget (tnames st) (fst p) with Some n' => str_eqb n n' | None => false end) (tgts st).
 
 Definition set_drain (st : state) (g : nat) (d : drain) : state := upd_drains st (nset (drains st) g d).
